@@ -120,6 +120,23 @@ func runC14(t *testing.T, seed uint64, planJSON []byte, tier string) (res *Resul
 		sim.MaxTime = 5000 * time.Hour
 		net.Open(TCAddr)
 		sim.Run(func() bool { return tc.SessionIsTM(0) && sim.Enabled() == 0 })
+		stopYield := func() {}
+		if *flagMode == "yield" {
+			if !yieldBuilt {
+				res.Harness = "mode yield needs the binary built from the instrumented copy (tag verifyield)"
+				return
+			}
+			ys := installYieldParked(sim, seed)
+			stopYield = func() {
+				fired, sites := ys.stop()
+				for i := 0; i < fired; i++ {
+					sim.Fault("goroutine-parked-at-sync-operation")
+				}
+				sim.Note("scheduling points: %d parks at %d active sites", fired, sites)
+				// let the goroutines still parked at a point go on (the points are off now)
+				sim.Run(func() bool { return sim.Enabled() == 0 })
+			}
+		}
 
 		var callers map[string]*c14Caller
 		byID := map[int32]*c14Caller{}
@@ -292,6 +309,7 @@ func runC14(t *testing.T, seed uint64, planJSON []byte, tier string) (res *Resul
 		}
 		callers = nil
 		plan.Tape = tape.Rec
+		stopYield()
 		finishResult(res, sim)
 	})
 	res.Plan, _ = json.Marshal(plan)
